@@ -39,8 +39,11 @@ man = dict(
     hooks=dict(guard='TENPY_VERIF', enable='no source hooks: all instrumentation is substituted from the harness (module attributes, LD_PRELOAD shim); checks run /repo sources through a symlink overlay with a freshly built Cython helper',
                baseline_off_cmd=baseline, source_commits=[], add_only=True),
     engines=[
-        dict(name='vcheck', path='vcheck', serves_properties=sorted(REGISTRY), kind_free_text='orchestrator: builds CY/PY configurations from the current tree, shards work units over 16 processes, evidence, known findings, replay'),
-        dict(name='grid', path='vk/pool.py', serves_properties=sorted(REGISTRY), kind_free_text='exhaustive product enumeration with per-case oracle'),
+        dict(name='vcheck', path='vcheck', serves_properties=sorted(READY), kind_free_text='orchestrator: builds the CY/PY/optimization-level configurations from the current tree (Cython helper rebuilt from the current .pyx, symlink overlay), shards work units over all cores with per-unit time-outs, merges coverage, matches known findings, writes evidence and replay files'),
+        dict(name='kernel-bfs', path='vk/kengine.py', serves_properties=['C01', 'C02', 'C03', 'C04'], kind_free_text='explicit-state BFS over operation histories of real npc.Arrays (heap of <=3 tensors) with numpy shadow models (vk/kops.py), canonical structural state keys, invariant checker and leg fingerprints (vk/kernel.py)'),
+        dict(name='sched', path='vk/sched.py', serves_properties=['C20'], kind_free_text='cooperative scheduler for real Python threads + stateless deviation-bounded enumeration of schedules (preemptions, timeouts, injected faults), deadlock / horizon / thread-leak detection, prefix replay'),
+        dict(name='crashfs', path='vk/crashfs', serves_properties=['C18'], kind_free_text='LD_PRELOAD libc shim (kill before / tear the n-th file-system operation) + warmed fork server running real Simulation process lifetimes; explicit-state search over crash/resume histories with abstract file states'),
+        dict(name='grid', path='vk/pool.py', serves_properties=sorted(READY), kind_free_text='exhaustive product enumeration with per-case oracle on a fork pool'),
     ],
     checks=checks,
     not_applicable=na,
